@@ -1,8 +1,8 @@
 package harness
 
 import (
-	"sort"
 	"fmt"
+	"sort"
 	"time"
 
 	"github.com/omec-project/upf-epc/zzverif/vsim"
@@ -14,9 +14,9 @@ import (
 func init() {
 	Register(&PropDef{
 		ID: "C02", QuickRuns: 3200, Level: "exploration",
-		Rule: "one run = 6-30 requests of all dispatched request types from 1-3 peers with drawn 24-bit sequence numbers (incl. 0 and 2^24-1) and CP SEIDs, mixing accepted and rejected requests (unknown session, no association, unknown Node ID), explicit duplicates of idempotent requests and response-type messages sent to the agent; once per run the agent may be killed (-9) and restarted, the peers re-associate and establish new sessions, and requests addressed with F-SEIDs of the killed incarnation's sessions must be refused as unknown; the oracle is evaluated on the decoded bytes at the peer socket: exactly one response of the matching type and sequence per delivered request, header SEID, Node ID / UP F-SEID / Created PDR content of establishment responses, addressing by UP F-SEID, CP F-SEID update on modification, rejection causes. Non-trivial = at least one accepted session operation and >20 task switches or pre-emption; distinct = different sequence of (request kind, outcome). Once per run a heartbeat outage (the heartbeats of the agent unanswered while the peer sends its own, late answers afterwards); PDI IEs in drawn order.",
+		Rule:   "one run = 6-30 requests of all dispatched request types from 1-3 peers with drawn 24-bit sequence numbers (incl. 0 and 2^24-1) and CP SEIDs, mixing accepted and rejected requests (unknown session, no association, unknown Node ID), explicit duplicates of idempotent requests and response-type messages sent to the agent; once per run the agent may be killed (-9) and restarted, the peers re-associate and establish new sessions, and requests addressed with F-SEIDs of the killed incarnation's sessions must be refused as unknown; the oracle is evaluated on the decoded bytes at the peer socket: exactly one response of the matching type and sequence per delivered request, header SEID, Node ID / UP F-SEID / Created PDR content of establishment responses, addressing by UP F-SEID, CP F-SEID update on modification, rejection causes. Non-trivial = at least one accepted session operation and >20 task switches or pre-emption; distinct = different sequence of (request kind, outcome). Once per run a heartbeat outage (the heartbeats of the agent unanswered while the peer sends its own, late answers afterwards); PDI IEs in drawn order.",
 		Assume: []string{"loss is not injected (it would make 'exactly one' unobservable); duplicates are sent explicitly and each delivered copy counts as a request", "a response is awaited for 8 virtual seconds after the agent is quiescent"},
-		Real: CommonReal, Simulated: CommonSim,
+		Real:   CommonReal, Simulated: CommonSim,
 		Scenario: scenarioC02,
 	})
 }
@@ -67,7 +67,7 @@ func scenarioC02(r *Run) {
 	}
 	aim := r.Conf.EnableHBTimer && r.Ch.Choose(2, "aim") == 1
 	usedSeq := map[string]bool{}
-	hasConn := map[*Peer]bool{} // the agent holds a connected socket for this peer
+	hasConn := map[*Peer]bool{}   // the agent holds a connected socket for this peer
 	stale := map[*Peer][]uint64{} // UP F-SEIDs handed out by an incarnation of the agent that was killed since
 	restarted := false
 	outageDone := false
